@@ -1589,6 +1589,16 @@ def image_sites(repo, tier):
     return confirm_natively({"obligations": obls, "functions": fns, "undecided": und}, repo)
 
 
+def _cache_probe(e, par):
+    """`self._slide_rel...[par]` / `self._slide_rel....get(par)` (no default): a probe of the per-path cache under the given path"""
+    if isinstance(e, ast.Subscript) and isinstance(e.value, ast.Attribute) and e.value.attr.startswith("_slide_rel"):
+        return isinstance(e.slice, ast.Name) and e.slice.id == par
+    if isinstance(e, ast.Call) and isinstance(e.func, ast.Attribute) and e.func.attr == "get" and isinstance(e.func.value, ast.Attribute) \
+            and e.func.value.attr.startswith("_slide_rel") and "rels_root" not in e.func.value.attr and not e.keywords:
+        return len(e.args) == 1 and isinstance(e.args[0], ast.Name) and e.args[0].id == par
+    return False
+
+
 def _per_part_table(ck):
     """`get_slide_relationships(slide_path)`: the table returned is built in this call from the relationship root stored for the SAME
     path, and cached under the same path (relationship ids are scoped by the part that owns the .rels)."""
@@ -1602,7 +1612,12 @@ def _per_part_table(ck):
         v = r.value
         if isinstance(v, ast.Name):
             b = reaching(fn, ck.pm, v.id, r)
-            if b is None or b.kind != "assign" or not (isinstance(b.value, ast.Dict) and not b.value.keys):
+            if b is not None and b.kind == "assign" and _cache_probe(b.value, par):
+                continue    # `cached = self._slide_relationships.get(slide_path)`: the cached table of the same path
+            empty = b is not None and b.kind == "assign" and ((isinstance(b.value, ast.Dict) and not b.value.keys) or
+                                                              (isinstance(b.value, ast.Call) and isinstance(b.value.func, ast.Name) and b.value.func.id == "dict"
+                                                               and not b.value.args and not b.value.keywords))
+            if not empty:
                 bad.append(f"line {LN(r)}: the returned table {v.id} is not created empty in this call")
             else:
                 fresh.add(v.id)
